@@ -245,6 +245,12 @@ def Items.emit (d : Str → Bool) : Items → List Nat
   | .cond k m t rest => (if k.holds d m then t.emit d else []) ++ rest.emit d
   | .condElse k m t e rest => (if k.holds d m then t.emit d else e.emit d) ++ rest.emit d
 
+/-- macro `x` is defined when the file is preprocessed for configuration `c` under the user's `-D`/`-U`:
+    `createDUI` passes the pieces of `userDefines` and of `c`; `simplecpp::preprocess` drops every name in
+    `dui.undefined` -/
+def effDefines (inp : Inp) (c : Str) (x : Str) : Bool :=
+  (defines inp.userDefines x || defines c x) && !inp.undefs.contains x
+
 /-- region `r` is part of the code analysed in configuration `c` -/
 def live (c : Str) (t : Items) (r : Nat) : Bool := (t.emit (defines c)).contains r
 
@@ -259,6 +265,108 @@ def Items.macros : Items → List Str
   | .region _ rest => rest.macros
   | .cond _ m t rest => m :: t.macros ++ rest.macros
   | .condElse _ m t e rest => m :: t.macros ++ e.macros ++ rest.macros
+
+/-! ### the class of trees on which the fold keeps what the coverage proof needs
+
+`safeItems fl stk P t` replays, on the tree, the only part of the fold that matters for coverage: the
+names on `configs_if` (`stk`, head = back(), `[]` for an empty entry) against the macros `P` the current
+branch requires to be defined.  It demands `names stk` = `P` (as sets) at every point where the fold
+inserts the configuration a region-carrying branch depends on. -/
+
+/-- how the fold treats a conditional: `pos` pushes `M=M` (then-branch needs `M`), `neg` pushes `` and the
+    `#else` pushes `M` (`#ifndef`), `nd` pushes `M` although the then-branch needs `M` undefined (F16) -/
+inductive Cls | pos | neg | nd
+  deriving DecidableEq, Repr
+
+def cls (fl : Flags) : Kind → Cls
+  | .ifdef | .ifDefined => .pos
+  | .ifndef => .neg
+  | .ifNotDefined => if fl.fixNotDef then .neg else .nd
+
+/-- does `#else ... #endif` of this conditional pop one entry more than was pushed (F15) -/
+def dropsAtElse (fl : Flags) (k : Kind) : Bool := !fl.fixElse && cls fl k != .neg
+
+/-- net number of surplus pops performed while the fold walks `t` -/
+def loss (fl : Flags) : Items → Nat
+  | .done => 0
+  | .region _ rest => loss fl rest
+  | .cond _ _ t rest => loss fl t + loss fl rest
+  | .condElse k _ t e rest => loss fl t + loss fl e + (if dropsAtElse fl k then 1 else 0) + loss fl rest
+
+def names (stk : List Str) : List Str := stk.filter fun e => !e.isEmpty
+
+def sameSet (a b : List Str) : Bool := a.all b.contains && b.all a.contains
+
+/-- the stack inside an `#else` branch that pushes no candidate, `a` = loss of the then-branch -/
+def elseStack (fl : Flags) (stk : List Str) (a : Nat) : List Str :=
+  (if fl.fixElse then [[]] else []) ++ stk.drop a
+
+/-- check at the `#if` line for a then-branch that carries a region; `rec stk' P'` = the branch itself -/
+def thenCheck (fl : Flags) (k : Kind) (m : Str) (stk P : List Str) (rec : List Str → List Str → Bool) : Bool :=
+  match cls fl k with
+  | .pos => sameSet (names stk) P && rec (m :: stk) (m :: P)
+  | .neg => rec ([] :: stk) P
+  | .nd => rec (m :: stk) P
+
+/-- check for an else-branch that carries a region; `a` = loss of the then-branch -/
+def elseCheck (fl : Flags) (k : Kind) (m : Str) (stk P : List Str) (a : Nat) (rec : List Str → List Str → Bool) : Bool :=
+  match cls fl k with
+  | .pos => rec (elseStack fl stk a) P
+  | .neg => sameSet (names (stk.drop a)) P && rec (m :: stk.drop a) (m :: P)
+  | .nd => sameSet (names stk) P && rec (elseStack fl stk a) (m :: P)
+
+def safeItems (fl : Flags) : List Str → List Str → Items → Bool
+  | _, _, .done => true
+  | stk, P, .region _ rest => safeItems fl stk P rest
+  | stk, P, .cond k m t rest =>
+    (t.regions.isEmpty || thenCheck fl k m stk P (fun stk' P' => safeItems fl stk' P' t)) &&
+    safeItems fl (stk.drop (loss fl t)) P rest
+  | stk, P, .condElse k m t e rest =>
+    (t.regions.isEmpty || thenCheck fl k m stk P (fun stk' P' => safeItems fl stk' P' t)) &&
+    (e.regions.isEmpty || elseCheck fl k m stk P (loss fl t) (fun stk' P' => safeItems fl stk' P' e)) &&
+    safeItems fl (stk.drop (loss fl t + loss fl e + (if dropsAtElse fl k then 1 else 0))) P rest
+
+/-- the decidable class: trees on which the fold of variant `fl` provably covers every region -/
+def safe (fl : Flags) (t : Items) : Bool := safeItems fl [] [] t
+
+/-- no conditional inside -/
+def Items.flat : Items → Bool
+  | .done => true
+  | .region _ rest => rest.flat
+  | _ => false
+
+/-- every `#if !defined(X)` conditional contains regions only -/
+def ndLeaf : Items → Bool
+  | .done => true
+  | .region _ rest => ndLeaf rest
+  | .cond k _ t rest => (if k = .ifNotDefined then t.flat else ndLeaf t) && ndLeaf rest
+  | .condElse k _ t e rest => (if k = .ifNotDefined then t.flat && e.flat else ndLeaf t && ndLeaf e) && ndLeaf rest
+
+/-- no `#else` on a conditional other than `#ifndef` -/
+def noDropElse : Items → Bool
+  | .done => true
+  | .region _ rest => noDropElse rest
+  | .cond _ _ t rest => noDropElse t && noDropElse rest
+  | .condElse k _ t e rest => k == .ifndef && noDropElse t && noDropElse e && noDropElse rest
+
+/-- a syntactic class inside `safe Flags.code`: `#if !defined` conditionals contain regions only, and an
+    `#else` of `#ifdef` / `#if defined` / `#if !defined` occurs only on top-level conditionals -/
+def simpleElse : Items → Bool
+  | .done => true
+  | .region _ rest => simpleElse rest
+  | .cond _ _ t rest => noDropElse t && simpleElse rest
+  | .condElse _ _ t e rest => noDropElse t && noDropElse e && simpleElse rest
+
+/-- a macro name the string functions treat as one unit: non-empty, free of `;`, `=`, `(`, and not the
+    literal `0` (every C identifier qualifies) -/
+def okName (m : Str) : Bool :=
+  !m.isEmpty && m.all (fun c => c != ';' && c != '=' && c != '(') && m != ['0']
+
+/-- the property's family: pairwise distinct macro names that are neither predefined nor `-U`ndefined,
+    no `-D` -/
+def inFamily (inp : Inp) (t : Items) : Bool :=
+  inp.userDefines.isEmpty && decide t.macros.Nodup &&
+  t.macros.all fun m => okName m && !inp.defined0.contains m && !inp.undefs.contains m
 
 /-- re-parse a directive list into the tree it prints (none: not well nested / `#define` inside) -/
 def parseItems : Nat → List Dir → Option (Items × List Dir)
